@@ -16,14 +16,46 @@ def s_char_indices(ex, callee, args, m):
     return VCharIter(_deref(ex, args[0]), 0)
 
 
+# one representative character per UTF-8 width (the parser only ever tests ASCII classes): e-acute, euro sign, an emoji
+MULTI = {2: 0xE9, 3: 0x20AC, 4: 0x1F600}
+
+
+def utf8_bytes(width):
+    return list(chr(MULTI[width]).encode("utf-8"))
+
+
 def s_ci_next(ex, callee, args, m):
     ref = args[0]
     it = ex.read_at(ref.cell, ref.path)
     if it.pos >= len(it.s.bytes):
         return VOpt(False, None)
-    v = VOpt(True, VTuple([VInt(it.pos), VInt(it.s.bytes[it.pos])]))
-    ex.write_at(ref.cell, ref.path, VCharIter(it.s, it.pos + 1))
+    w = 1
+    if it.s.bounds is not None:
+        while it.pos + w < len(it.s.bytes) and (it.pos + w) not in it.s.bounds:
+            w += 1
+    code = VInt(it.s.bytes[it.pos]) if w == 1 else VInt(MULTI[w])
+    v = VOpt(True, VTuple([VInt(it.pos), code]))
+    ex.write_at(ref.cell, ref.path, VCharIter(it.s, it.pos + w))
     return v
+
+
+def s_bytes(ex, callee, args, m):
+    return VStruct("Bytes", [_deref(ex, args[0]), VInt(0)])
+
+
+def s_bytes_enumerate(ex, callee, args, m):
+    return VStruct("Enumerate<Bytes>", [args[0].items[0], VInt(0)])
+
+
+def s_bytes_next(ex, callee, args, m):
+    ref = args[0]
+    it = ex.read_at(ref.cell, ref.path)
+    sv, pos = it.items[0], it.items[1].conc()
+    if pos >= len(sv.bytes):
+        return VOpt(False, None)
+    ex.write_at(ref.cell, ref.path, VStruct(it.name, [sv, VInt(pos + 1)]))
+    b = VInt(sv.bytes[pos])
+    return VOpt(True, VTuple([VInt(pos), b]) if it.name.startswith("Enumerate") else b)
 
 
 def _between(c, lo, hi):
@@ -78,6 +110,12 @@ def s_index(ex, callee, args, m):
     if not (lo <= hi <= len(s.bytes)):
         ex.oblige(TRUE, f"str index {lo}..{hi} out of range for length {len(s.bytes)}", callee)
         return _DIVERGE
+    if s.bounds is not None:
+        for off in (lo, hi):
+            if off not in s.bounds and off not in (0, len(s.bytes)):
+                ex.oblige(TRUE, f"byte index {off} is not a char boundary", callee)
+                return _DIVERGE
+        return VStr(s.bytes[lo:hi], {b - lo for b in s.bounds if lo <= b <= hi})
     return VStr(s.bytes[lo:hi])
 
 
@@ -214,6 +252,10 @@ def s_opt_unwrap(ex, callee, args, m):
 STR_NATIVES = [
     (N(r"^core::str::<impl str>::char_indices$"), s_char_indices),
     (N(r"^<CharIndices<'_> as Iterator>::next$"), s_ci_next),
+    (N(r"^core::str::<impl str>::bytes$"), s_bytes),
+    (N(r"^<Bytes<'_> as Iterator>::enumerate$"), s_bytes_enumerate),
+    (N(r"^<(?:Enumerate<)?Bytes<'_>>? as Iterator>::next$"), s_bytes_next),
+    (N(r"^<(?:Enumerate<Bytes<'_>>|Bytes<'_>|CharIndices<'_>) as IntoIterator>::into_iter$"), lambda ex, c, a, m: a[0]),
     (N(r"^char::methods::<impl char>::is_ascii_digit$"), s_is_digit),
     (N(r"^char::methods::<impl char>::is_ascii_alphabetic$"), s_is_alpha),
     (N(r"^String::with_capacity$|^String::new$"), s_string_new),
